@@ -54,8 +54,16 @@ def dec_text(max_frac=5):
 
 
 @lru_cache(None)
+def extreme_dec_text():
+    """decimals whose float repr() uses exponent notation (below 1e-4): written plainly, serialized as 1e-05 ...
+    (values of 1e16 and more have the same property but swamp every mass tolerance of the checks that share this generator)"""
+    return st.tuples(st.sampled_from(['', '+', '-']),
+                     st.sampled_from(['0.00001', '0.00002', '0.000015', '0.0000001', '0.00009999', '0.0', '0.00010'])).map(''.join)
+
+
+@lru_cache(None)
 def numeric_text():
-    return st.one_of(int_text(), dec_text())
+    return st.one_of(int_text(), dec_text(), dec_text(), int_text(), extreme_dec_text())
 
 
 # ---- modification texts (C01: any spelling; resolvability does not matter) -----------------------
